@@ -399,9 +399,6 @@ type ChannelsForPeer struct {
 
 // ChannelsForPeer identifies which channels are open and which request IDs they map to
 func (t *Transport) ChannelsForPeer(p peer.ID) ChannelsForPeer {
-	t.dtChannelsLk.RLock()
-	defer t.dtChannelsLk.RUnlock()
-
 	// cannot have active transfers with self
 	if p == t.peerID {
 		return ChannelsForPeer{
@@ -410,31 +407,47 @@ func (t *Transport) ChannelsForPeer(p peer.ID) ChannelsForPeer {
 		}
 	}
 
-	sending := make(map[datatransfer.ChannelID]ChannelGraphsyncRequests)
-	receiving := make(map[datatransfer.ChannelID]ChannelGraphsyncRequests)
+	type gsRequest struct {
+		requestID graphsync.RequestID
+		isSending bool
+		chid      datatransfer.ChannelID
+		ch        *dtChannel
+	}
+	var requests []gsRequest
+
+	t.dtChannelsLk.RLock()
 	// loop through every graphsync request key we're currently tracking
 	t.requestIDToChannelID.forEach(func(requestID graphsync.RequestID, isSending bool, chid datatransfer.ChannelID) {
 		// if the associated channel ID includes the requested peer
 		if chid.Initiator == p || chid.Responder == p {
-			// determine whether the requested peer is one at least one end of the channel
-			// and whether we're receving from that peer or sending to it
-			collection := sending
-			if !isSending {
-				collection = receiving
-			}
-			channelGraphsyncRequests := collection[chid]
-			// finally, determine if the request key matches the current GraphSync key we're tracking for
-			// this channel, indicating it's the current graphsync request
-			if t.dtChannels[chid] != nil && t.dtChannels[chid].requestID != nil && (*t.dtChannels[chid].requestID) == requestID {
-				channelGraphsyncRequests.Current = requestID
-			} else {
-				// otherwise this id was a previous graphsync request on a channel that was restarted
-				// and it has not been cleaned up yet
-				channelGraphsyncRequests.Previous = append(channelGraphsyncRequests.Previous, requestID)
-			}
-			collection[chid] = channelGraphsyncRequests
+			requests = append(requests, gsRequest{requestID, isSending, chid, t.dtChannels[chid]})
 		}
 	})
+	t.dtChannelsLk.RUnlock()
+
+	sending := make(map[datatransfer.ChannelID]ChannelGraphsyncRequests)
+	receiving := make(map[datatransfer.ChannelID]ChannelGraphsyncRequests)
+	// the current graphsync request of a channel is guarded by the channel's own
+	// lock, which must not be taken while holding the locks above
+	for _, r := range requests {
+		// determine whether the requested peer is one at least one end of the channel
+		// and whether we're receving from that peer or sending to it
+		collection := sending
+		if !r.isSending {
+			collection = receiving
+		}
+		channelGraphsyncRequests := collection[r.chid]
+		// finally, determine if the request key matches the current GraphSync key we're tracking for
+		// this channel, indicating it's the current graphsync request
+		if r.ch != nil && r.ch.isCurrentRequest(r.requestID) {
+			channelGraphsyncRequests.Current = r.requestID
+		} else {
+			// otherwise this id was a previous graphsync request on a channel that was restarted
+			// and it has not been cleaned up yet
+			channelGraphsyncRequests.Previous = append(channelGraphsyncRequests.Previous, r.requestID)
+		}
+		collection[r.chid] = channelGraphsyncRequests
+	}
 	return ChannelsForPeer{
 		SendingChannels:   sending,
 		ReceivingChannels: receiving,
@@ -1164,6 +1177,14 @@ func (c *dtChannel) close(ctx context.Context) error {
 }
 
 // Called when the responder gets a cancel message from the requester
+// isCurrentRequest reports whether requestID is the channel's current graphsync request
+func (c *dtChannel) isCurrentRequest(requestID graphsync.RequestID) bool {
+	c.lk.RLock()
+	defer c.lk.RUnlock()
+
+	return c.requestID != nil && *c.requestID == requestID
+}
+
 func (c *dtChannel) onRequesterCancelled() {
 	c.lk.Lock()
 	defer c.lk.Unlock()
